@@ -122,6 +122,19 @@ def run(tier):
     if missing:
         ck.inconclusive.append("edge kinds never the sole path to a survivor: %s" % ",".join(missing))
 
+    # ---- M5: what the embedding program holds or has just created must survive too: compiled functions kept by the
+    # host and executed again after reset(), natives defined into modules that do not exist yet (audited + poisoned,
+    # collect-always; the reference model supplies the expected output)
+    from ..gen import feat_repl
+    from . import modelcheck
+    rh = ck.rng.fork("host")
+    hist = []
+    for i in range(250 if quick else 8000):
+        steps, hmods = feat_repl.host_history(rh.fork(str(i)))
+        hist.append({"name": "host/%d" % i, "steps": steps, "mods": hmods})
+    checked, _ = modelcheck.check_programs(ck, hist, opts={"gc": "always", "quarantine": 1, "audit": 1}, sig_prefix="HostHistory")
+    ck.coverage["host_api_histories"] = checked
+
     # ---- M3: AddressSanitizer, unhooked release build collecting at every allocation
     asan_cases = [mk_case(cid + ":asan", [snip(meta[cid][1])], {}, meta[cid][2]) for cid in by_prog]
     ck.log("asan build: %d executions" % len(asan_cases))
